@@ -103,6 +103,24 @@ TEXTS = {
         "level_note": "Trusted: T-OPS (reshape/expand/repeat/transpose layouts, multinomial without replacement, slogdet components). D5 (searchsorted mutated its argument) and the KDE dtype defect were repaired in /repo.",
         "technique": "static ownership analysis + symbolic layout evaluation + normal-form comparison of helper bodies + dtype provenance",
     },
+    "C01": {
+        "level_text": "Three structural necessary conditions every correct log-det must satisfy, which the suite's only log-det assertion (forward + inverse = 0) cannot see because errors in them are symmetric: no log-det of a part is dropped (call-site labels must reach the returned log-det on every return, zero log-dets computed not listed), the returned log-det is batch-shaped and reduced over the non-batch axes exactly once (constant-dim special cases with a definite-error policy), and broadcast multiplicities (h*w, per-pixel, per-element) are carried. That each closed-form expression equals the derivative of the output formula is an identity between real functions and is NOT decided.",
+        "design_ref": "DESIGN.md 2.C01, 1.9 (axes_lite fallback)",
+        "level_note": "Trusted: A-NET, A-UMNN, T-OPS. LD-SHAPE uses the lite fallback of the axes engine: forms outside the special cases are counted (baseline recorded in the evidence), never reported. D10 (GatedLinearUnit) was repaired in /repo.",
+        "technique": "static taint dataflow with call-site labels (must-reach at returns) + shape special-case rules on symbolic expansions",
+    },
+    "C02": {
+        "level_text": "Direction-pairing necessary conditions for all classes including the ones the suite never runs in both directions: signed-leaf normal forms of the two returned log-dets are negations (or carry log-leaves of opposite sign), delegations pass the right inverse flag, the squeeze guard uses the configuration forward used, constructed positive quantities stay positive where logged or divided; knot-side agreement, autoregressive inverse passes and reversed order are decided by the C09/C06/C08 rules. Round-trip error, finiteness, root selection and division by zero at degenerate parameters are value questions and NOT decided.",
+        "design_ref": "DESIGN.md 2.C02",
+        "level_note": "Trusted: A-CFG, A-NET, A-UMNN, T-OPS. D4 (squeeze guard) was repaired in /repo.",
+        "technique": "static symbolic expansion + signed-leaf normal forms (pair rule) + polynomial normal form + sign lattice",
+    },
+    "C11": {
+        "level_text": "Structural agreement of the linear-family accessors for every parameter value: accessor completeness over the class hierarchy, forward/inverse log-dets equal +/- logabsdet(), logabsdet() sums the log of the very diagonal that the shared factor constructors put into every view of the map, that diagonal is positive by the sign lattice, and the Householder inverse is the exact reversal of the same reflections. Numeric inverse accuracy and usability for every accepted size are value facts and NOT decided; the operator-word check (LIN-WORD) of the design is not implemented in this round.",
+        "design_ref": "DESIGN.md 2.C11",
+        "level_note": "Trusted: A-CFG (eps > 0), T-OPS (softplus/exp positive). Some slots are compared as normalised statement text of the factor constructors (listed in the rule source).",
+        "technique": "static call-graph completeness + provenance/slot agreement across sibling accessors + sign lattice",
+    },
 }
 
 NOT_CLAIMED = {}
